@@ -3,7 +3,7 @@
    state, so the statements below quantify over ALL states (and all fault schedules).  Truthfulness
    for arbitrary states is C03 (clean => intact, counts) and C02 (Repair writes only data matching
    the recorded hashes), both stated for every state; restated here for the record. *)
-From Gopar Require Import Model.Base Model.CRC Model.GoPath Model.FS Model.Par2 Model.Par1 Proofs.Par2Facts Proofs.Par2Verify Proofs.Par2Faults Proofs.Par1Facts Proofs.Par1Safety Proofs.Par2Clean Proofs.Par2Ignore Proofs.Par1Volumes Proofs.Par2Counts Proofs.Par2Reader2 Proofs.Truthful.
+From Gopar Require Import Model.Base Model.CRC Model.GoPath Model.FS Model.Par2 Model.Par1 Proofs.Par2Facts Proofs.Par2Verify Proofs.Par2Faults Proofs.Par1Facts Proofs.Par1Safety Proofs.Par2Clean Proofs.Par2Ignore Proofs.Par1Volumes Proofs.Par2Counts Proofs.Par2Reader2 Proofs.Truthful Proofs.SlicesLifted Proofs.ScanFacts.
 From Coq Require Import List Permutation. Import ListNotations.
 Open Scope N_scope.
 
@@ -247,3 +247,16 @@ Theorem C13_par1_repair_writes : forall md5 ix dbl fs r rp st',
                        N.of_nat (length (snd w)) = Par1.e_len e) ws.
 Proof. exact Par1Facts.par1_repair_writes. Qed.
 Print Assumptions C13_par1_repair_writes.
+
+(* COUNTED SLICES ARE GENUINE AT THE CONTENT LEVEL: in every state and under every fault schedule, the data of a slice
+   slot that Verify counts usable IS a zero-padded window, at an offset inside it, of a protected file that is in the file
+   system (the first recorded location of the slot says which) - not merely bytes with the registered checksums *)
+Theorem C13_usable_slices_are_windows : forall md5 ix fs sched ds st1,
+  load_all md5 ix (io_init fs sched) = (Ok ds, st1) ->
+  forall i k s, nth k (fi_shards (nth i (ds_fis ds) dfi)) None = Some s ->
+  exists c p info data,
+    hd_error (si_locs s) = Some (c, p) /\ nth_error (d_rec (ds_dec ds)) c = Some info /\
+    fs_lookup fs (file_path ix (di_name info)) = Some data /\
+    (p < length data)%nat /\ si_data s = window_at (N.to_nat (d_slice (ds_dec ds))) data p.
+Proof. exact usable_slices_are_windows_loc. Qed.
+Print Assumptions C13_usable_slices_are_windows.
